@@ -20,6 +20,10 @@ Real code (public entry points, over harness.fakecourier with no faults, real se
                        manual mode under the deterministic scheduler + deterministic event loop; the executed operations are
                        projected onto the alphabet of the `Stage` LTS and replayed by the Lean driver (model "stage", `stepT`):
                        harness/lib_c16_stage.py
+  kind 'sliced'      : (package SC16c) SLICED aggregations (`add_slice`: the states of shards / workers carry different
+                       key sets) through both distributed modes - `dist` 'sharded' (result_queue) and 'interleaved'
+                       (first aggregating stage on 1-3 remote workers) -, 1-3 aggregating stages x slices, skewed data,
+                       empty shards; oracle = the in-process result per output key x slice key: harness/lib_c16_sliced.py
 Model: lean/MlModel/Model/Sched.lean (`IT` with the all-ok environment, `trMergeStates`, `chMergeStates`,
 `stageReturned`) + the queue LTS of C04; theorems lean/MlModel/Properties/C16.lean.
 
@@ -32,11 +36,12 @@ import queue
 from harness import lib_sched as L
 from harness import lib_sched_ext as X
 from harness import lib_c16_stage as S
+from harness import lib_c16_sliced as Z
 from harness.core import err_kind
 
 PID = 'C16'
 TITLE = 'Fault-free distributed execution equals in-process execution'
-LEAN_MODULES = ['MlModel.Properties.C16', 'MlModel.Properties.C16Stage', 'MlModel.Properties.C16Merge', 'MlModel.Witness.C16Stage', 'MlModel.Witness.C16Merge']
+LEAN_MODULES = ['MlModel.Properties.C16', 'MlModel.Properties.C16Sliced', 'MlModel.Properties.C16Stage', 'MlModel.Properties.C16Merge', 'MlModel.Witness.C16Stage', 'MlModel.Witness.C16Merge']
 TRUSTED = [
     'the courier transport is harness/fakecourier (in-process, no faults injected here); pickling is what the repo '
     'does itself (cloudpickle of the traced pipeline)',
@@ -58,7 +63,9 @@ RULE = ('sharded: workers 1-4 x shards 1-6 x n 0..9 x three pipelines (exhaustiv
         'aggregate} x buffer sizes, also with the reply of the first kick-off RPC held back (2-3 workers) and with '
         'latency on random replies; strict count: 0-4 states x strict 0..5 for both runner variants and for chains with '
         'two / three aggregating stages, states as list and as one-shot generator; sharded runs of pipelines with two / '
-        'three aggregating stages (p3, p4). '
+        'three aggregating stages (p3, p4); SLICED aggregations (slicer kinds default / cross / within / fan-out fn / two '
+        'slicers, data sorted or blocked by the slice feature, shard counts above the number of batches) sharded over '
+        '1-3 workers x 1-8 shards and interleaved over 1-3 workers, 1-3 aggregating stages. '
         'non-trivial = more than one worker or shard and at least two output batches')
 
 TIMEOUT = 20.0
@@ -89,6 +96,10 @@ def gen_cases(ctx):
       ctx.count('reply_latency', 'yes')
     if c['kind'] == 'stage':
       ctx.count('stage_sched', c['sched']['kind'] + ('/directed' if c['sched'].get('first') else ''))
+    if c['kind'] == 'sliced':
+      ctx.count('sliced', f"{c['dist']}/{c.get('stages', 1)} stage(s)")
+      for sl in c['sub']['slicers']:
+        ctx.count('sliced:slicer', sl['kind'] + ('-cross' if len(sl['keys']) > 1 else ''))
     if c['kind'] == 'strict':
       ctx.count('strict_variant', c['variant'] + ('/oneshot' if c.get('oneshot') else ''))
     yield c
@@ -133,6 +144,9 @@ def _gen_cases(ctx):
     yield dict(kind='interleaved', workers=rng.randrange(2, 4), n=rng.randrange(2, 13),
                mode=rng.choice(['fused', 'staged', 'noagg']), buffer=rng.choice([0, 1, 2, 5]),
                lat=[[rng.choice([1, 3, 8]), rng.randrange(2, 6)] for _ in range(rng.choice([1, 2]))])
+  # sliced aggregations through both distributed modes (package SC16c)
+  for c in Z.gen_cases(rng, quick):
+    yield c
   # one interleaved stage step by step against the Stage LTS (package C16S)
   for c in S.gen_cases(rng, quick):
     yield c
@@ -160,6 +174,8 @@ def run_impl(case):
     return run_strict(case)
   if kind == 'cache':
     return run_cache(case)
+  if kind == 'sliced':
+    return Z.run(case)
   if kind == 'stage':
     obs = S.run_stage(case)
     obs.pop('choices', None)      # the schedule is reproduced from the case's seed
@@ -381,6 +397,8 @@ def oracle(case, obs):
   kind = case['kind']
   if kind == 'stage':
     return S.oracle(case, obs)
+  if kind == 'sliced':
+    return Z.oracle(case, obs)
   if kind == 'cache':
     if obs['outcome'] != 'returned':
       return (f"evaluating cached lazy functions on {case['threads']} handler threads: {obs['errors']} threads died with "
@@ -439,6 +457,8 @@ def model_requests_obs(case, obs):
   kind = case['kind']
   if kind == 'stage':
     return [S.model_request(case, obs)]
+  if kind == 'sliced':
+    return Z.model_requests(case, obs)
   if kind == 'strict':
     if case['variant'] in ('chained2', 'chained3') or case.get('oneshot'):
       ns_ = {'chained2': 2, 'chained3': 3}.get(case['variant'], 1)
@@ -458,6 +478,8 @@ def model_requests_obs(case, obs):
 def model_obs(case, resps):
   if not resps:
     return None
+  if case['kind'] == 'sliced':
+    return dict(kind='sliced', case=case, resps=resps)
   r = resps[0]
   if case['kind'] == 'stage':
     for p in r.get('points', []):
@@ -480,6 +502,8 @@ def compare(obs, mobs):
     return None
   if mobs['kind'] == 'stage':
     return S.compare(mobs['case'], obs, mobs['r'])
+  if mobs['kind'] == 'sliced':
+    return Z.compare(mobs['case'], obs, mobs['resps'])
   if mobs['kind'] == 'strict':
     a = (obs['outcome'], obs['total'])
     b = (mobs['outcome'], mobs['total'])
@@ -503,13 +527,17 @@ def compare(obs, mobs):
 _ARMS = collections.Counter()
 REQUIRED_ARMS = ['cache:concurrent-evaluation-beyond-capacity', 'interleaved:kickoff-reply-late(2+ workers)', 'interleaved:reply-latency', 'sharded:two-aggregating-stages',
                  'sharded:three-aggregating-stages', 'strict:multi-stage-oneshot-merged', 'strict:multi-stage-oneshot-rejected',
-                 'stage:run-completed'] + ['stage:' + p for p in S.REQUIRED_POINTS]
+                 'stage:run-completed'] + ['stage:' + p for p in S.REQUIRED_POINTS] + Z.REQUIRED_ARMS
 
 
 def _cover(case, obs):
   kind = case['kind']
   if oracle(case, obs) is not None:
     _ARMS['(oracle failed)'] += 1      # the verdict is a VIOLATION; coverage does not decide this run
+  if kind == 'sliced':
+    for a in Z.arms(case, obs):
+      _ARMS[a] += 1
+    return
   if kind == 'stage':
     _ARMS['stage:run-completed' if obs['outcome'] == 'done' else 'stage:run-' + str(obs['outcome'])] += 1
     return
@@ -546,6 +574,8 @@ def nontrivial(case, obs):
     return case['states'] >= 2 and case['strict'] >= 1
   if case['kind'] == 'stage':
     return case['workers'] > 1 and case['n'] >= 2 and obs['outcome'] == 'done'
+  if case['kind'] == 'sliced':
+    return bool(obs.get('arrivals')) and len(case['sub']['batches']) >= 2
   return (case['workers'] > 1 or case.get('shards', 1) > 1) and case['n'] >= 2
 
 
